@@ -46,6 +46,9 @@ func vfRQSequence(res *vfRes, r *vfRand, idata bool, maxEntries uint32, nops int
 	var msgs []*vfRQMsg
 	byContent := map[string][]*vfRQMsg{}
 	tsn := r.Uint32()
+	if r.Intn(2) == 0 {
+		tsn = ^uint32(0) - uint32(r.Intn(60)) //nolint:gosec // the sequence crosses the 2^32 TSN wrap
+	}
 	nextSSN := uint16(r.Pick(0, 0, 65530))  //nolint:gosec
 	nextMID := uint32(r.Pick(0, 0, 1<<32-6)) //nolint:gosec
 	nextUMID := uint32(r.Intn(5))            //nolint:gosec
@@ -199,13 +202,53 @@ func vfRQSequence(res *vfRes, r *vfRand, idata bool, maxEntries uint32, nops int
 				if idata {
 					q.forwardTSNForOrderedMID(q.nextMID + uint32(r.Intn(3))) //nolint:gosec
 				} else {
-					q.forwardTSNForOrdered(q.nextSSN + uint16(r.Intn(3))) //nolint:gosec
+					last := q.nextSSN + uint16(r.Intn(3)) //nolint:gosec
+					var keep []*chunkSet
+					for _, set := range q.ordered {
+						if sna16GT(set.ssn, last) {
+							keep = append(keep, set)
+						}
+					}
+					q.forwardTSNForOrdered(last)
+					// post-condition (serial arithmetic): no incomplete set at or below the skipped SSN is left, every
+					// set above it is still there
+					left := map[*chunkSet]bool{}
+					for _, set := range q.ordered {
+						left[set] = true
+						if !set.isComplete() && sna16LTE(set.ssn, last) {
+							return "", fail("purge/ordered-left", "forwardTSNForOrdered(%d) left the incomplete set of SSN %d in the queue", last, set.ssn)
+						}
+					}
+					for _, set := range keep {
+						if !left[set] {
+							return "", fail("purge/ordered-overreach", "forwardTSNForOrdered(%d) removed the set of SSN %d", last, set.ssn)
+						}
+					}
 				}
 			case 1:
 				if idata {
 					q.forwardTSNForUnorderedMID(nextUMID - uint32(r.Intn(4))) //nolint:gosec
 				} else {
-					q.forwardTSNForUnordered(tsn - uint32(r.Intn(12))) //nolint:gosec
+					newCum := tsn - uint32(r.Intn(12)) //nolint:gosec
+					var keep []*chunkPayloadData
+					for _, c := range q.unorderedChunks {
+						if sna32GT(c.tsn, newCum) {
+							keep = append(keep, c)
+						}
+					}
+					q.forwardTSNForUnordered(newCum)
+					left := map[*chunkPayloadData]bool{}
+					for _, c := range q.unorderedChunks {
+						left[c] = true
+						if sna32LTE(c.tsn, newCum) {
+							return "", fail("purge/unordered-left", "forwardTSNForUnordered(%d) left the fragment with TSN %d in the queue", newCum, c.tsn)
+						}
+					}
+					for _, c := range keep {
+						if !left[c] {
+							return "", fail("purge/unordered-overreach", "forwardTSNForUnordered(%d) removed the fragment with TSN %d", newCum, c.tsn)
+						}
+					}
 				}
 			case 2:
 				if idata {
